@@ -24,6 +24,9 @@ type C13Session struct {
 	ResetAtMs int    `json:"reset_at_ms"` // abrupt disconnect this long after the command (-1: never)
 	CloseAtMs int    `json:"close_at_ms"` // orderly close (-1: never; tails are always ended by one of the two)
 	PaceMs    int    `json:"pace_ms"`
+	// BadGz: the session's files are named *.gz but are not gzip data, so the
+	// reader fails and (for a follow) is retried every 2 s
+	BadGz bool `json:"bad_gz,omitempty"`
 }
 
 type C13Scenario struct {
@@ -50,17 +53,30 @@ func c13Gen(r *Rand, tier string, i int) Scenario {
 	for k := 0; k < n; k++ {
 		s := C13Session{Mode: "cat", Files: PickOf(r, 1, 1, 2, 3, 6), Lines: PickOf(r, 5, 40, 120, 250), StartMs: PickOf(r, 0, 0, 0, 1, 5, 50),
 			ResetAtMs: -1, CloseAtMs: -1, PaceMs: PickOf(r, 0, 0, 1, 5)}
-		if r.Bool(0.25) {
+		if r.Bool(0.35) {
 			s.Mode = "tail"
 			s.Files = PickOf(r, 1, 2, 3)
 			s.Lines = 5
 		}
+		if r.Bool(0.2) {
+			s.BadGz = true
+		}
 		switch {
 		case s.Mode == "tail":
+			if s.BadGz {
+				// end it during one of the retry pauses (they start after ~0, 2, 4 s)
+				if r.Bool(0.5) {
+					s.ResetAtMs = PickOf(r, 500, 1000, 2500, 3000, 4500)
+				} else {
+					s.CloseAtMs = PickOf(r, 500, 1000, 2500, 3000, 4500)
+				}
+				break
+			}
+			end := PickOf(r, r.Intn(400), r.Intn(400), 3000, 6000, 8000)
 			if r.Bool(0.5) {
-				s.ResetAtMs = r.Intn(400)
+				s.ResetAtMs = end
 			} else {
-				s.CloseAtMs = r.Intn(400)
+				s.CloseAtMs = end
 			}
 		case r.Bool(0.45):
 			if r.Bool(0.6) {
@@ -162,7 +178,11 @@ func c13Run(t *testing.T, s Scenario, src verifsim.DecisionSource, keep bool) *R
 				if ss.Mode == "tail" {
 					prefix = "t"
 				}
-				w.WriteFile(fmt.Sprintf("s%d/%s%d.log", si, prefix, f), b.Bytes())
+				ext := ""
+				if ss.BadGz {
+					ext = ".gz"
+				}
+				w.WriteFile(fmt.Sprintf("s%d/%s%d.log%s", si, prefix, f, ext), b.Bytes())
 			}
 		}
 		w.StartSSHWorld([]string{"srv1"}, sc.Cfg, nil)
@@ -188,6 +208,9 @@ func c13Run(t *testing.T, s Scenario, src verifsim.DecisionSource, keep bool) *R
 				prefix = "t"
 			}
 			glob := fmt.Sprintf("%s/%s/%s*.log", w.Dir+"/data", dir, prefix)
+			if ss.BadGz {
+				glob += ".gz"
+			}
 			rs.Command(CatCommand(ss.Mode, glob, ""))
 			start := time.Now()
 			deadline := 5 * time.Minute
@@ -289,7 +312,7 @@ func c13Run(t *testing.T, s Scenario, src verifsim.DecisionSource, keep bool) *R
 	// liveness: every cat session that was not cancelled received all lines of all its files
 	for si, ss := range sc.Sessions {
 		st := states[si]
-		if st == nil || st.cancelled || ss.Mode != "cat" {
+		if st == nil || st.cancelled || ss.Mode != "cat" || ss.BadGz {
 			continue
 		}
 		if st.failed != "" {
@@ -337,7 +360,7 @@ func c13Shape(s Scenario) string {
 	sc := s.(*C13Scenario)
 	var ss []string
 	for _, x := range sc.Sessions {
-		ss = append(ss, fmt.Sprintf("%s%dx%d@%d/r%d/c%d/p%d", x.Mode[:1], x.Files, x.Lines, x.StartMs, x.ResetAtMs, x.CloseAtMs, x.PaceMs))
+		ss = append(ss, fmt.Sprintf("%s%dx%d@%d/r%d/c%d/p%d/z%v", x.Mode[:1], x.Files, x.Lines, x.StartMs, x.ResetAtMs, x.CloseAtMs, x.PaceMs, x.BadGz))
 	}
 	return fmt.Sprintf("cats%d/tails%d/stall%d/w2%v/%s", sc.Cfg.MaxCats, sc.Cfg.MaxTails, sc.ReaderStallMs, sc.Wave2, strings.Join(ss, ","))
 }
